@@ -203,3 +203,59 @@ PROPS["C08"] = dict(
          "matrix, sequence).",
     assumptions=["matrices have finite non-wildcard entries on the grid (k/4); wildcard column -inf or finite"],
 )
+
+
+SCAN_INV = ["NoPanic", "OnlyQual", "NoDuplicate", "Complete", "MaxRefines"]
+SCAN_ACT = ["ScanBlock", "Pop", "Finish", "MaxCall"]
+SCAN_FIXED = dict(SeqRowsOnly=True, BoundIndex=True, CheckFirst=True, BoundFrom='"scale"')
+def _scan_mc():
+    return [
+        dict(name="MC_Scanner_repaired", module="MC_Scanner", invariants=SCAN_INV, actions=SCAN_ACT, workers=10, timeout=3000,
+             constants=dict(C=2, BlockSizes="{1, 2}", **SCAN_FIXED),
+             quick=dict(MaxLen=4, MaxM=2, Vals="{0, 2}"), thorough=dict(MaxLen=5, MaxM=2, Vals="{0, 1, 3}")),
+        dict(name="MC_Scanner_M3", module="MC_Scanner", invariants=SCAN_INV, actions=SCAN_ACT, workers=6, timeout=3000,
+             constants=dict(C=2, BlockSizes="{1, 3}", **SCAN_FIXED),
+             quick=dict(MaxLen=3, MaxM=3, Vals="{0, 1}"), thorough=dict(MaxLen=5, MaxM=3, Vals="{0, 1}")),
+        dict(name="MC_Scanner_neg_all_rows", module="MC_Scanner", invariants=["NoPanic"], expect_violation="NoPanic",
+             constants=dict(C=2, BlockSizes="{1, 2}", MaxLen=3, MaxM=2, Vals="{0, 2}",
+                            SeqRowsOnly=False, BoundIndex=True, CheckFirst=True, BoundFrom='"scale"')),
+        dict(name="MC_Scanner_neg_no_index_bound", module="MC_Scanner", invariants=["NoPanic", "OnlyQual"], expect_violation="NoPanic",
+             constants=dict(C=2, BlockSizes="{1, 2}", MaxLen=3, MaxM=2, Vals="{0, 2}",
+                            SeqRowsOnly=True, BoundIndex=False, CheckFirst=True, BoundFrom='"scale"')),
+        dict(name="MC_Scanner_neg_first_unchecked", module="MC_Scanner", invariants=["MaxRefines"], expect_violation="MaxRefines",
+             constants=dict(C=2, BlockSizes="{1, 2}", MaxLen=3, MaxM=2, Vals="{0, 2}",
+                            SeqRowsOnly=True, BoundIndex=True, CheckFirst=False, BoundFrom='"scale"')),
+        dict(name="MC_Scanner_neg_dscore_bound", module="MC_Scanner", invariants=["MaxRefines"], expect_violation="MaxRefines",
+             constants=dict(C=2, BlockSizes="{1}", MaxLen=4, MaxM=2, Vals="{0, 1, 3}",
+                            SeqRowsOnly=True, BoundIndex=True, CheckFirst=True, BoundFrom='"dscore"'), tiers=("thorough",)),
+    ]
+
+SCAN_COMMON = dict(
+    record=True, trace="Trace_Scan", shards=12,
+    assumptions=["DNA, C = 32 (the only configuration for which the scanner exists)",
+                 "grid matrices (k/4), thresholds on the grid or -inf; block sizes >= 1",
+                 "dev profile (overflow checks on); the release-profile behaviour of the 8-bit kernels is covered by C08"],
+)
+PROPS["C02"] = dict(SCAN_COMMON, mc=_scan_mc(),
+    level_text="A-layer: the scanner is a set of not-yet-returned qualifying positions; next() may return any of them with "
+               "its exact score, None only when the set is empty; panics and hangs are not actions. I-layer: the block "
+               "loop of scan.rs (8-bit pre-filter over the exactly discretised matrix, block skip, candidate re-scoring, "
+               "hit buffer, pop) is model-checked to refine it for every small sequence / matrix / threshold / block size, "
+               "with the originally coded loop bound and the missing candidate bound as negative controls. Every recorded "
+               "iteration to exhaustion of the real Scanner (each dispatcher arm forced; lengths 32R-d around every block "
+               "boundary, L<M, empty; thresholds above max .. -inf; block sizes 1..7 and 256) is validated by TLC.",
+    level_note="MC at C=2, L<=5, M<=3; real scanner (C=32) by recorded executions only. Hit order is free. "
+               "Trusted: TLC, Json module, grid conversion.",
+    rule="impl->spec: one history per (input, arm, block size): scan_new then next() until None (cap L+2 calls = hang); "
+         "distinct_nontrivial = distinct (arm, sequence, matrix, threshold, block size).")
+PROPS["C03"] = dict(SCAN_COMMON, mc=_scan_mc(),
+    level_text="A-layer: max() returns None iff no qualifying position remains, otherwise a remaining position whose exact "
+               "score is the maximum over the remaining ones (consumed hits excluded; block size and arm are not inputs of "
+               "the abstract machine). I-layer: Scanner::max as coded (buffered hits, best / best_discrete pruning, tie "
+               "rule) is model-checked to refine it from every reachable scanner state, with the unchecked first candidate "
+               "and the over-estimated bound as negative controls. Recorded histories next()^k ; max() of the real Scanner, "
+               "each input run with two block sizes and two arms, are validated by TLC.",
+    level_note="MC at C=2, L<=5, M<=3; real scanner by recorded executions only; near-ties come from low-complexity "
+               "sequences and 4-valued matrices whose 8-bit rounding reorders windows. Trusted: TLC, Json module.",
+    rule="impl->spec: one history per (input, arm, block size, k): scan_new, k x next(), max(); each input with two block "
+         "sizes / arms and with k = 0; distinct_nontrivial = distinct (arm, input, block size, k).")
